@@ -36,11 +36,16 @@ type zzBomb struct {
 	// what to do inside HandleRead before anything else: 1 ctx.Write, 2 ctx.Trigger (entry points from inside a handler)
 	inner int
 	reads bool // consume the inbound byte (only the first handler does)
+	closeFirst bool // close the channel, then panic, in the same delivery
+	ctxClose   func()
 }
 
 func (b *zzBomb) maybe(kind int) {
 	if b.on == kind && b.hits == 0 {
 		b.hits++
+		if b.closeFirst && b.ctxClose != nil {
+			b.ctxClose()
+		}
 		zzThrow(b.pval)
 	}
 }
@@ -217,4 +222,41 @@ func ZZ_C07_TransportFault(q, what, k, exmode int) {
 		vrt.Assert(errs[k-1] != nil, "c07-sync-write-reports-transport-error")
 		vrt.Reach("c07-fault-reported")
 	}
+}
+
+// ZZ_C07_CloseThenPanic: a handler closes the channel and then panics in the same delivery (or the channel is closed
+// by another goroutine while the delivery is in flight): the panic still must not escape into the caller of
+// Channel.Write / Channel.Trigger nor kill the read goroutine.
+func ZZ_C07_CloseThenPanic(entry, pval, q, concurrent int) {
+	tr := newZZTransport()
+	tr.readData = []byte{0x51}
+	pl := NewPipeline()
+	on := zzKWrite
+	if entry == 2 {
+		on = zzKEvent
+	}
+	if entry == 0 {
+		on = zzKRead
+	}
+	bomb := &zzBomb{on: on, pval: pval, reads: true, closeFirst: concurrent == 0}
+	inact := &zzInact{}
+	pl.AddLast(bomb, inact)
+	ch := newChannelWith(vrtBackground(), pl, tr, AsyncExecutor(), 1, q, true).(*channel)
+	bomb.ctxClose = func() { ch.Close(zzErrUserClose) }
+	pl.ServeChannel(ch)
+	if concurrent != 0 {
+		vrt.Go("closer", func() { ch.Close(zzErrUserClose) })
+	}
+	var escaped interface{}
+	switch entry {
+	case 1:
+		escaped = vrt.Panics(func() { ch.Write([]byte{0x41}) })
+	case 2:
+		escaped = vrt.Panics(func() { ch.Trigger(7) })
+	}
+	vrt.Assert(escaped == nil, "c07-panic-does-not-escape-into-the-caller")
+	dead := vrt.Quiesce()
+	vrt.Assert(!dead, "c07-goroutines-finish-after-close")
+	vrt.Assert(tr.closes == 1 && inact.n == 1, "c07-closed-exactly-once")
+	vrt.Reach("c07-close-then-panic-done")
 }
